@@ -7,14 +7,7 @@ def repo_commits(prefix=None):
     out = subprocess.run(["git", "-C", "/repo", "log", "--format=%h %s"], capture_output=True, text=True).stdout
     return [l for l in out.splitlines()]
 
-CHECKS = {
- "C01": dict(tech="property-based testing: bounded-exhaustive subsets + derivation-program generator + all-scalar sweep; oracle = full match on the regex engine",
-   text="Exploration. Every regex-crate configuration is reachable by the generator; all non-empty subsets of {a,b,c}^<=2 (and of {a,b}^<=3 in thorough) are enumerated exhaustively under 14 configurations, lifted to adversarial symbols, and every scalar value is swept as a one-character test case (thorough: all 1,112,064). Absence is not proven beyond those universes.",
-   note="Trusts regex 1.10.6/regex-automata 0.4.7 for 'matches in full'. KF-empty is tolerated only when the hook snapshots show its exact stage signature.", ref="5/C01"),
- "C02": dict(tech="property-based testing: bounded-exhaustive subsets + generator; oracle = symbolic language equality (product of HIR-NFA and spec-NFA over minterms) with engine-confirmed witnesses",
-   text="Exploration with a complete oracle per case: for each generated or enumerated input, 'no other string over all of Unicode matches' is decided on automata, not sampled, and every reported difference is confirmed on the real engine. Inputs are exhaustive only on the stated universes.",
-   note="Trusts regex-syntax's HIR as the engine's reading of the pattern; comparator guarded by witness confirmation and near-miss sampling.", ref="5/C02"),
-}
+CHECKS = json.load(open(os.path.join(ROOT, "tools", "checks_table.json")))
 
 def main():
     checks = []
@@ -37,7 +30,7 @@ def main():
         if p not in CHECKS:
             na.append({"property_id": p, "reason": na_reason.get(p, "check not built yet in this revision of the framework; see DESIGN.md §5 for the planned procedure")})
     log = repo_commits()
-    hooks = [l.split()[0] for l in log if "verification hooks" in l or "grex_verif" in l]
+    hooks = [l.split()[0] for l in log if "grex_verif" in l]
     m = {
         "version": 1,
         "setup_cmd": "./tools/setup.sh",
@@ -49,7 +42,7 @@ def main():
             "add_only": True,
         },
         "engines": [
-            {"name": "gv", "path": "/verif/harness", "serves_properties": sorted(CHECKS), "kind_free_text": "Rust binary: proptest-driven generators (seeded ChaCha, shrinking), bounded-exhaustive enumerators, symbolic regex-language comparator with engine confirmation, evidence/replay writer"},
+            {"name": "gv", "path": "/verif/harness", "serves_properties": sorted(CHECKS), "kind_free_text": "Rust binary (plus py/driver.py inside CPython for C14, the rebuilt grex CLI for C12): proptest-driven generators (seeded ChaCha, shrinking), bounded-exhaustive enumerators, symbolic regex-language comparator with engine confirmation, evidence/replay writer"},
         ],
         "checks": checks,
         "not_applicable": na,
